@@ -354,12 +354,16 @@ func (a c06TAny) Nth(list interface{}, i int) (interface{}, error) {
 }
 
 func c06Typed(c *core.Ctx) {
-	const sdl = "type Query { wide: [Int] words: [Int] ratios: [Float] times: [Time] started: Time }\n"
+	// members declared non-null as well: this library does not propagate nulls, a failed member is null in place
+	const sdl = "type Query { wide: [Int!] words: [Int] ratios: [Float!]! times: [Time] started: Time }\n"
 	const okTime = "2020-04-05T06:07:08Z"
 	var idx int64
+	defer func(d int) { ggql.MaxResolveDepth = d }(ggql.MaxResolveDepth)
 	for mask := 0; mask < 16; mask++ {
 		for _, generic := range []bool{false, true} {
 			for mode := 0; mode < 3; mode++ {
+				// the depth limit is the application's to set: the default, a large one, "none"
+				ggql.MaxResolveDepth = []int{100, 5000, math.MaxInt32, 7}[mask%4]
 				idx++
 				if !c.OwnsIdx(1<<41 + idx) {
 					continue
@@ -419,7 +423,7 @@ func c06Typed(c *core.Ctx) {
 				c.Nontrivial()
 				var res map[string]interface{}
 				pi := core.Safe(func() { res = root.ResolveString("{ wide words ratios times started }", "", nil) })
-				detail := map[string]interface{}{"failing_positions_mask": mask, "carrier": map[bool]string{false: "typed slices ([]int64, []string, []float64, []string)", true: "[]interface{}"}[generic], "mode": []string{"reflection", "Resolver", "AnyResolver"}[mode], "response": res}
+				detail := map[string]interface{}{"failing_positions_mask": mask, "max_resolve_depth": ggql.MaxResolveDepth, "carrier": map[bool]string{false: "typed slices ([]int64, []string, []float64, []string)", true: "[]interface{}"}[generic], "mode": []string{"reflection", "Resolver", "AnyResolver"}[mode], "response": res}
 				if pi != nil {
 					c.Violation("panic", map[string]string{"site": pi.Site, "class": pi.Class}, detail)
 					continue
